@@ -28,10 +28,11 @@ What it offers
   in the raising thread before the raise executes, with the object's own lock
   still held).  Probes fire for every thread, registered worker or not.
 
-Blocked detection ("finished or itself blocked") is a bounded wait on thread
-state: no LINE event and an unchanged top frame for a window that is short when
-the last statement reached can block (``acquire``/``wait``/``os.read``/``with``)
-and long otherwise.  A misjudgement only changes *which* schedule was explored
+Workers run on a pool of persistent daemon threads (an OS thread start costs
+milliseconds on a loaded box).  Blocked detection ("finished or itself blocked")
+is a bounded wait on thread state: no LINE event and an unchanged innermost
+frame for a window that is short when the source line that frame is executing
+can block (``acquire``/``wait``/``os.read``/``with``) and long otherwise.  A misjudgement only changes *which* schedule was explored
 (the run still ends at a real quiescent point); it can never produce a verdict.
 A *hang* (every unfinished worker blocked in an untimed call, nothing parked)
 is reported through ``Run.hung`` after a much longer window; the caller may
